@@ -801,7 +801,9 @@ OPNMIDI_EXPORT void opn2_positionRewind(struct OPN2_MIDIPlayer *device)
 OPNMIDI_EXPORT void opn2_setTempo(struct OPN2_MIDIPlayer *device, double tempo)
 {
 #ifndef OPNMIDI_DISABLE_MIDI_SEQUENCER
-    if(!device || (tempo <= 0.0))
+    // Not a number, non-positive and absurdly large multipliers are ignored: with an (almost) infinite one
+    // the song advances without a single sample ever being due, and a looping song never lets opn2_play return
+    if(!device || !(tempo > 0.0) || (tempo > 1.0e6))
         return;
     MidiPlayer *play = GET_MIDI_PLAYER(device);
     assert(play);
